@@ -64,6 +64,7 @@ GENERATED = os.path.join(VERIF, "lean", "RlibModel", "Generated", "RandParams.le
 
 # chi-square acceptance bound for n = 2..7 (cells = n!): df + 8*sqrt(2*df) + 20, rounded up. The same table is
 # compiled into the harness (`CHI2_BOUND`) and the driver (`chi2Bound`).
+EXPECTED_INT_PAIRS = [("i8", "u8"), ("i16", "u16"), ("i32", "u32"), ("i64", "u64"), ("isize", "usize")]
 CHI2_BOUND = {2: 33, 3: 51, 4: 98, 5: 263, 6: 1043, 7: 5863}
 
 
@@ -102,6 +103,8 @@ def extract(repo):
             src[name] = open(path).read()
         except OSError as e:
             return params, [f"cannot read {path}: {e}"]
+    # line comments are not code: a pattern must not be satisfied by commented-out text
+    src = {k: re.sub(r"//[^\n]*", "", v) for k, v in src.items()}
     num = r"(0x[0-9a-fA-F_]+|[0-9_]+)"
     m = re.search(r"^\s*pub\s+type\s+Rng\s*=\s*lcg::LinearCongruentialGenerator64\s*<\s*" + num + r"\s*,\s*" + num + r"\s*>\s*;", src["lib.rs"], flags=re.M)
     if m:
@@ -130,6 +133,20 @@ def extract(repo):
         problems.append("randomable.rs: `let unit = (rng >> S) as f64 / (1u64 << B) as f64;` not found in Range<f64>")
     if not re.search(r"let\s+x\s*=\s*unit\s*\*\s*len\s*\+\s*self\.start\s*;\s*if\s+x\s*<\s*self\.end\s*\{\s*x\s*\}\s*else\s*\{\s*self\.start\s*\}", rnd):
         problems.append("randomable.rs: Range<f64> no longer ends in `let x = unit * len + self.start; if x < self.end { x } else { self.start }`")
+    # the set of integer types the property quantifies over = the macro invocations; the harness drives exactly these
+    pairs = re.findall(r"^\s*make_randomable!\(\s*(\w+)\s*,\s*(\w+)\s*\)\s*;", rnd, flags=re.M)
+    params["int_types"] = [f"{a}/{b}" for a, b in pairs]
+    if pairs != EXPECTED_INT_PAIRS:
+        problems.append("randomable.rs: the `make_randomable!(..)` invocations are no longer exactly "
+                        f"{EXPECTED_INT_PAIRS} (found {pairs}): harness type list, model (`len as u64` is exact only up to 64 bits, "
+                        "int_range_onto needs width <= 64) and source disagree")
+    n_impl = len(re.findall(r"impl\s+Randomable<", rnd))
+    inv = re.findall(r"implement_ranges!\(\s*([^)]*?)\s*\)\s*;", rnd)
+    if n_impl != 7 or inv != ["$it", "$ut"]:
+        problems.append(f"randomable.rs: expected 7 textual `impl Randomable<..>` blocks and implement_ranges!($it)/($ut) only "
+                        f"(found {n_impl} blocks, invocations {inv}): an implementation exists that the harness does not drive")
+    if len(re.findall(r"impl\s+Randomable<f64>\s+for", rnd)) != 1 or re.search(r"impl\s+Randomable<f32>", rnd):
+        problems.append("randomable.rs: float implementations are no longer exactly `impl Randomable<f64> for Range<f64>`")
     if not re.search(r"for\s+i\s+in\s+1\.\.v\.len\(\)\s*\{\s*v\.swap\(i,\s*self\.next\(0\.\.=i\)\);\s*\}", src["mrand.rs"]):
         problems.append("mrand.rs: shuffle is no longer `for i in 1..v.len() { v.swap(i, self.next(0..=i)); }`")
     # side conditions of the theorems, evaluated on the extracted values (Props/C14.lean re-proves them with `decide`)
